@@ -30,6 +30,7 @@ fn main() {
     "c12" => vh::engines::c12::run(),
     "c12worker" => vh::engines::c12::worker(&args[2..]),
     "c13" => vh::engines::c13::run(),
+    "c13op" => vh::engines::c13::print_history_operation(args[2].parse().expect("operation number")),
     "c17" => vh::engines::c17::run(),
     "c18" => vh::engines::c18::run(),
     "c18server" => vh::engines::c18::serve(&args[2..]),
